@@ -824,6 +824,77 @@ func c05Malform(r *rand.Rand, d *c05Dag, order []c05Ev) []c05Ev {
 	return out
 }
 
+// c05ManyBranches: size class "many-branches": 2-4 validators, one cheater that is NOT the last validator in
+// index order creates 65-140 sibling fork events on one self-parent (cheap events: only the self-parent), i.e.
+// as many global branches, within ONE in-memory run of Adds (no DropNotFlushed / Reset / restart, which would
+// reload BranchesInfo from its RLP record).  The per-creator branch list crosses every Go slice growth boundary
+// (1, 2, 4, ..., 64, 128).  Honest validators keep observing some of the siblings; merged clocks of recent events
+// are read all along, of ALL events at the end, ForklessCause among recent events.
+func c05ManyBranches(r *rand.Rand) []string {
+	nv := 2 + r.Intn(3)
+	cheater := r.Intn(2)
+	if cheater >= nv-1 {
+		cheater = 0
+	}
+	d := &c05Dag{nv: nv, ws: c05Weights(r, nv)}
+	in := c05Header(d, c05FcSizes[r.Intn(len(c05FcSizes))], c05VcSizes[r.Intn(len(c05VcSizes))], 0, 0)
+	id := 0
+	last := make([]int, nv) // last event id per validator (0 = none); for the cheater: its seq-1 event
+	seq := make([]int, nv)
+	add := func(cr int, parents []int, s int) int {
+		id++
+		in = append(in, c05EvOp(c05Ev{id: id, cr: cr, seq: s, parents: parents})...)
+		return id
+	}
+	for v := 0; v < nv; v++ { // first events; the honest ones see the cheater's first event
+		var ps []int
+		if v != cheater && last[cheater] != 0 {
+			ps = []int{last[cheater]}
+		}
+		last[v] = add(v, ps, 1)
+		seq[v] = 1
+		if v == cheater {
+			// make sure the cheater's first event exists before the others reference it
+		}
+	}
+	base := last[cheater]
+	k := 65 + r.Intn(76)
+	var sibs []int
+	for j := 0; j < k; j++ {
+		sibs = append(sibs, add(cheater, []int{base}, 2))
+		if j%7 == 6 || j == 63 || j == 64 || j == 127 || j == 128 {
+			// an honest validator (preferably the cheater's index neighbour) observes one or two siblings
+			h := cheater + 1
+			if r.Intn(3) == 0 {
+				h = r.Intn(nv)
+				if h == cheater {
+					h = cheater + 1
+				}
+			}
+			ps := []int{last[h], sibs[len(sibs)-1]}
+			if r.Intn(2) == 0 && len(sibs) > 1 {
+				ps = append(ps, sibs[r.Intn(len(sibs)-1)])
+			}
+			if r.Intn(3) == 0 {
+				o := r.Intn(nv)
+				if o != h && o != cheater {
+					ps = append(ps, last[o])
+				}
+			}
+			seq[h]++
+			last[h] = add(h, ps, seq[h])
+			in = append(in, ";", "M", "2")
+			if j%14 == 13 {
+				in = append(in, ";", "Q", "6", strconv.Itoa(r.Intn(2)))
+			}
+		}
+	}
+	in = append(in, ";", "Q", "10", "0", ";", "M", "0", ";", "V", "2")
+	vu.Stat("scenario_many_branches")
+	vu.StatN("many_branches_siblings", k)
+	return in
+}
+
 // c05TwoEpochs: ONE Index object used for two consecutive epochs the way abft uses it: every event is
 // Add+Flush followed by a (no-op) DropNotFlushed, at the epoch switch the index is Reset onto a NEW empty DB with
 // ANOTHER validator set (more or fewer validators), then a second DAG (own cheaters, event ids overlapping with
@@ -929,7 +1000,17 @@ func init() {
 					}
 				}
 			}
+			nextMany := 7
 			for i := 0; i < n; {
+				if i >= nextMany { // size class many-branches (65-140 branches of one cheater): 2 per quick run
+					emit(c05ManyBranches(r)...)
+					i++
+					nextMany += 30
+					if tier == "thorough" {
+						nextMany -= 18
+					}
+					continue
+				}
 				switch r.Intn(10) {
 				case 0:
 					emit(c05TwoEpochs(r, tier)...)
